@@ -182,3 +182,110 @@ Example c12_nonvacuous_wake_driven :
   st = WDone /\ trace = [2; 0; 2; 2; 0; 0; 1] /\ calls (sh (base w)) = [0; 1] /\
   results (sh (base w)) 2 = [(0, OOk)].
 Proof. vm_compute. repeat split. Qed.
+
+(* ---- join_all with a shared waker (JoinAll::Small, <= 30 children; processor.rs): every poll of
+        the parent polls all unfinished children in order; the executor polls the parent only after
+        the one shared waker fired (C12/JoinModel.v) ---- *)
+From RM Require Import C12.JoinModel C12.JoinProofs.
+
+(* the executor never finds the parent unwoken while a child is unfinished (no WLost), it polls the
+   parent at most work c times, and what happened is the explicit schedule "r round-robin rounds"
+   of the plain model — so every safety theorem above applies to it *)
+Theorem c12_join_all_spurious_ok : forall (c : config) (fuel : nat),
+  work c <= fuel ->
+  exists w r, jexec c fuel (winit c) 0 = (w, r, WDone) /\ r <= work c /\
+              base w = run c (round_robin c r) /\ all_done c (run c (round_robin c r)) = true.
+Proof. exact join_all_ok. Qed.
+Print Assumptions c12_join_all_spurious_ok.
+
+(* one parent poll is one round of the plain model, whatever the bits are *)
+Theorem c12_join_all_round : forall (c : config) (w : wstate),
+  base (jparent c w) = run_from c (base w) (seq 0 (ntasks c)).
+Proof. exact jparent_base. Qed.
+Print Assumptions c12_join_all_round.
+
+Example c12_nonvacuous_join_all :
+  let '(w, r, st) := jexec ex_cfg 13 (winit ex_cfg) 0 in
+  st = WDone /\ r = 3 /\ calls (sh (base w)) = [0; 1] /\ all_done ex_cfg (base w) = true.
+Proof. vm_compute. repeat split. Qed.
+
+(* ---- HttpSymbolSupplier::locate_file_internal is an instance (C12/FileModel.v): the same
+        cache_default + CachedAsyncResult::get over FileKey = (ModuleKey, FileKind) ---- *)
+From RM Require Import C12.FileModel C12.FileProofs.
+
+(* distinct (module, kind) pairs never share a slot *)
+Theorem c12_files_distinct_slots : forall a b : fkey, enc a = enc b -> a = b.
+Proof. exact enc_inj. Qed.
+Print Assumptions c12_files_distinct_slots.
+
+(* the fetch closure runs at most once per file key, under every schedule *)
+Theorem c12_files_at_most_once : forall (fc : fconfig) (sched : list task) (fk : fkey),
+  supplier_calls (run (to_config fc) sched) (enc fk) <= 1.
+Proof. exact files_at_most_once. Qed.
+Print Assumptions c12_files_at_most_once.
+
+(* every requester of a file key gets the closure's single answer, which is Ok or NotFound *)
+Theorem c12_files_same_outcome : forall (fc : fconfig) (sched : list task) (t : task) (i : nat) (fk : fkey) (o : outcome),
+  task_result (run (to_config fc) sched) t i = Some (enc fk, o) ->
+  o = snd (file_script fc fk) /\ (o = OOk \/ o = ONotFound) /\
+  nth_error (nth t (ftasks fc) []) i = Some fk.
+Proof. exact files_same_outcome. Qed.
+Print Assumptions c12_files_same_outcome.
+
+Theorem c12_files_total_fetches : forall (fc : fconfig) (sched : list task),
+  length (calls (sh (run (to_config fc) sched))) <= distinct_keys (to_config fc).
+Proof. exact files_total_calls. Qed.
+Print Assumptions c12_files_total_fetches.
+
+Example c12_nonvacuous_files :
+  let fc := {| ftasks := [[(0, KBin); (0, KDbg)]; [(0, KDbg); (1, KBin)]; [(0, KBin)]];
+               local_hit := fun _ => false;
+               has_lookup := fun fk => match fk with (1, KBin) => false | _ => true end;
+               servers := [fun fk => (1, match fk with (0, KDbg) => true | _ => false end);
+                           fun fk => (2, match fk with (0, KBin) => true | _ => false end)] |} in
+  let s := run (to_config fc) [0; 1; 2; 2; 1; 0; 0; 1; 2; 0; 1; 2; 0] in
+  all_done (to_config fc) s = true /\ calls (sh s) = [enc (0, KBin); enc (0, KDbg); enc (1, KBin)] /\
+  results (sh s) 1 = [(enc (0, KDbg), OOk); (enc (1, KBin), ONotFound)] /\
+  results (sh s) 2 = [(enc (0, KBin), OOk)].
+Proof. vm_compute. repeat split. Qed.
+
+(* ---- BEYOND THE PROPERTY'S QUANTIFIER (C12 excludes cancellation): a requester that is waiting
+        for a slot's lock is dropped (C12/DropModel.v: MutexLockFuture::drop = remove_waker(key, true),
+        which passes a wake-up the dropped waiter had already received on to the next waiter).
+        [erun c evs] = any sequence of polls and such drops; it returns the configuration
+        truncated to what the dropped tasks had completed, and the state. ---- *)
+From RM Require Import C12.DropModel C12.DropProofs.
+
+(* no wake-up is lost: while a surviving task is unfinished, some unfinished task is woken *)
+Theorem c12_drop_waiter_no_lost_wakeup : forall (c : config) (evs : list event),
+  all_done (fst (erun c evs)) (base (snd (erun c evs))) = false ->
+  runnable (fst (erun c evs)) (snd (erun c evs)) <> [].
+Proof. exact drop_no_lost_wakeup. Qed.
+Print Assumptions c12_drop_waiter_no_lost_wakeup.
+
+(* ... and a wake-driven executor then finishes all surviving tasks within the same bound *)
+Theorem c12_drop_waiter_still_finishes : forall (c : config) (evs : list event) (fuel : nat) (picks : list nat),
+  2 * work c + ntasks c < fuel ->
+  exists w' sched,
+    wexec (fst (erun c evs)) fuel picks (snd (erun c evs)) [] = (w', sched, WDone) /\
+    all_done (fst (erun c evs)) (base w') = true.
+Proof. exact drop_still_finishes. Qed.
+Print Assumptions c12_drop_waiter_still_finishes.
+
+(* safety is unaffected: still at most one supplier call per key, one answer per key *)
+Theorem c12_drop_waiter_safety : forall (c : config) (evs : list event) (k : key),
+  supplier_calls (base (snd (erun c evs))) k <= 1 /\
+  (forall t o, In (k, o) (results (sh (base (snd (erun c evs)))) t) -> o = outc c k).
+Proof. exact drop_safety. Qed.
+Print Assumptions c12_drop_waiter_safety.
+
+(* the woken waiter is dropped before it runs: the wake-up moves on to the other waiter *)
+Example c12_nonvacuous_drop :
+  let c := {| tasks := [[0]; [0]; [0]]; susp := fun _ => 1; outc := fun _ => OOk; leaf := fun _ => 0 |} in
+  let cw := erun c [EPoll 0; EPoll 1; EPoll 2; EPoll 0] in
+  wk (ext (snd cw)) 1 = Some (0, 0, true) /\ wk (ext (snd cw)) 2 = Some (0, 1, false) /\
+  runnable (fst cw) (snd cw) = [1] /\
+  let cw' := erun c [EPoll 0; EPoll 1; EPoll 2; EPoll 0; EDrop 1] in
+  runnable (fst cw') (snd cw') = [2] /\ tasks (fst cw') = [[0]; []; [0]] /\
+  wk (ext (snd cw')) 2 = Some (0, 1, true).
+Proof. vm_compute. repeat split. Qed.
